@@ -54,7 +54,10 @@ RULE = ('every mesh size n in 1..12 (quick) / 1..24 (thorough), odd and even, x 
         '(get_k_mu_edges linear/log; start above 0; end below / at / above Nyquist and above the mesh diagonal; edges exactly '
         'on attained |k|^2 values and strictly between; random) x 1..6 mu bins (linspace, dyadic with exact ties, random) x '
         'pole sets within {0,2,4} x pi binnings (pimax below / at / above the largest kz, Npi 1..5) x nthread in {1,2,3,16}; '
-        'meshes whose cells are distinct integers (plus a generic float stream); a case is non-trivial when at least one '
+        'meshes whose cells are distinct integers (plus a generic float stream); a quarter of the bin_kmu / bin_kppi cases in '
+        'configuration space (fourier=False, dk = L/n, symmetric full (n,n,n) real-space mesh); get_k_mu_edges (linear, log, '
+        'mu, array-like) against the exact-rational linspace; P_n for every order 0..11 (odd ones through the mu-parametrised '
+        'model); sibling loops (expand_poles_to_3d, get_smoothing, get_delta_mu2) as observations; a case is non-trivial when at least one '
         'mode is binned; distinct = distinct (kind, n, dtype, squared edges, poles, nthread, mesh seed)')
 TRUSTED = [
     'float computation of mu^2 = k^2/|k|^2 and of the edge squares is outside the model: the model is given the squared '
@@ -63,7 +66,11 @@ TRUSTED = [
     'means are compared exactly-up-to-4-ulp when all partial sums are exactly representable (integer meshes), otherwise within '
     'the recursive-summation bound (n_terms+8)*2u*sum|terms|; k averages and multipoles always within that bound',
     'NUMBA_BOUNDSCHECK=1 turns every out-of-range access of the compiled kernels into IndexError',
-    'P_n is modelled for even orders only (odd orders are a half-integer power of mu^2, not rational)',
+    'inside bin_kmu the multipoles are modelled for even orders only (an odd order needs sqrt(mu^2) of every mode, not '
+    'rational); P_n itself is modelled for every order given a rational mu with mu*mu = x (PnMu, theorem PnMu_all_orders)',
+    'get_k_mu_edges: numpy.linspace computes fl(i*fl((b-a)/N)), so the real linear / mu edges are the exact-rational model '
+    'edges up to 2 ulp (bit-exact when representable, end points always exact); log edges (geomspace = 10**linspace) are '
+    'checked against x_i^N = a^(N-i) b^i within 64 N ulp; the theorems about the binnings are over the exact rationals',
 ]
 ASSUMPTIONS = ['mu edges end at 1 (documented: "mu ranges from 0 to 1"); otherwise the mu search of bin_kmu runs past the '
                'edge array (model: oob; confirmed on the bounds-checked kernel)',
@@ -897,8 +904,8 @@ def run_one(ctx, ps, chk, c, m, bres):
     if c['kind'] != 'calc':
         runs['boundscheck'] = bres
     byT = {}
-    # every case at its own thread count; every third case additionally at all four (thread independence)
-    for T in (NTHREADS if c['mesh_seed'] % 3 == 0 else (c['nthread'],)):
+    # every case at its own thread count; every fifth (thorough: third) case additionally at all four
+    for T in (NTHREADS if c['mesh_seed'] % ctx.pick(5, 3) == 0 else (c['nthread'],)):
         cc = dict(c, nthread=T)
         byT[T] = run_kernel(ps, cc, 'jit')
         ctx.count('thread-sweeps' if T != c['nthread'] else 'own-thread-count')
